@@ -454,12 +454,25 @@ func (t *tx) release() {
 
 func (t *tx) Commit() error {
 	defer t.release()
-	return around(t.c, nil, Commit, "COMMIT", nil, func() error { return t.in.Commit() })
+	executed := false
+	err := around(t.c, nil, Commit, "COMMIT", nil, func() error { executed = true; return t.in.Commit() })
+	if err != nil && !executed {
+		// A COMMIT refused by a before-hook ("statement not executed"): the
+		// database aborts the transaction. Without this the pooled connection
+		// would stay inside the transaction that database/sql considers done.
+		_ = t.in.Rollback()
+	}
+	return err
 }
 
 func (t *tx) Rollback() error {
 	defer t.release()
-	return around(t.c, nil, Rollback, "ROLLBACK", nil, func() error { return t.in.Rollback() })
+	executed := false
+	err := around(t.c, nil, Rollback, "ROLLBACK", nil, func() error { executed = true; return t.in.Rollback() })
+	if err != nil && !executed {
+		_ = t.in.Rollback() // same: never leave the connection inside a transaction
+	}
+	return err
 }
 
 type stmt struct {
